@@ -19,7 +19,13 @@ import time
 import traceback
 
 ROOT = os.path.dirname(os.path.dirname(os.path.abspath(__file__)))
-REPO = "/repo"
+# The registered commands always analyse /repo.  VERIF_REPO exists only so that the seeded-change matrix (tools/seed_matrix.py)
+# can point a check at a scratch worktree without touching /repo while other checks are running.
+REPO = os.environ.get("VERIF_REPO", "/repo")
+OUT = ROOT
+if REPO != "/repo":
+    sys.path.insert(0, REPO)
+    OUT = os.environ.get("VERIF_OUT", os.path.join("/tmp", "verif_out_" + str(os.getuid())))  # never overwrite /verif's evidence or replays
 REPLAY_PY = "/venv/bin/python"
 
 
@@ -66,7 +72,7 @@ def fmt_values(model):
 
 
 def run_replay(pid, case, obl, script):
-    d = os.path.join(ROOT, "replays", pid)
+    d = os.path.join(OUT, "replays", pid)
     os.makedirs(d, exist_ok=True)
     h = hashlib.sha256(script.encode()).hexdigest()[:10]
     safe = "".join(ch if ch.isalnum() or ch in "-_" else "_" for ch in f"{case}-{obl}")[:80]
@@ -518,8 +524,8 @@ def main(argv=None):
         "violations": len(viol),
     }
     if a.case is None:
-        os.makedirs(os.path.join(ROOT, "evidence"), exist_ok=True)
-        with open(os.path.join(ROOT, "evidence", f"{pid}.json"), "w") as f:
+        os.makedirs(os.path.join(OUT, "evidence"), exist_ok=True)
+        with open(os.path.join(OUT, "evidence", f"{pid}.json"), "w") as f:
             json.dump(ev, f, indent=1, default=str)
     for r in results:
         tag = "ERROR" if r["error"] else ("HARD-TIMEOUT(inconclusive)" if r.get("hard_timeout") else "INCOMPLETE" if not r["complete"] else "ok")
